@@ -1,4 +1,6 @@
 import EpgVerif.Props.C12
+import EpgVerif.Tie.SimSites
+import EpgVerif.Tie.Modify
 open EpgVerif.Props.C12
 #print axioms simulate_length
 #print axioms simulate_times
@@ -9,3 +11,11 @@ open EpgVerif.Props.C12
 #print axioms modify_run
 #print axioms modifyItems_is_modify
 #print axioms att_scales_flip_angle
+#print axioms EpgVerif.Tie.SimSites.sites_as_modelled
+#print axioms EpgVerif.Tie.Modify.kinds
+#print axioms EpgVerif.Tie.Modify.durations
+#print axioms EpgVerif.Tie.Modify.full_tie
+#print axioms EpgVerif.Tie.Modify.gonly_tie
+#print axioms EpgVerif.Tie.Modify.t1only_tie
+#print axioms EpgVerif.Tie.Modify.zerodur_tie
+#print axioms EpgVerif.Tie.Modify.adc_phasor_tie
